@@ -79,34 +79,57 @@ Definition sv_run (server : nat) (is_default : bool) (t : sreg) : list (nat * na
   (match sv_get KAll t with Some r => r | None => [] end).
 
 (* ---- NotificationCenter --------------------------------------------------------------------------- *)
-(* _registrations[obj][msg][listener] = action; (obj, msg) pairs are the outer keys *)
-Definition nreg := list ((nat * nat) * reg).
-Definition okey_eqb (a b : nat * nat) : bool := Nat.eqb (fst a) (fst b) && Nat.eqb (snd a) (snd b).
-Fixpoint nc_get (k : nat * nat) (t : nreg) : option reg :=
-  match t with [] => None | (k', r) :: u => if okey_eqb k k' then Some r else nc_get k u end.
-Fixpoint nc_put (k : nat * nat) (f : reg -> reg) (t : nreg) : nreg :=
+(* _registrations[obj][msg][listener] = action: three nested dicts.  Deleting the last listener of a
+   message (or the last message of an object) leaves an empty dict behind, which matters for the
+   KeyError of a later unregister. *)
+Fixpoint al_get {V : Type} (k : nat) (t : list (nat * V)) : option V :=
+  match t with [] => None | (k', v) :: u => if Nat.eqb k k' then Some v else al_get k u end.
+Fixpoint al_put {V : Type} (k : nat) (f : option V -> V) (t : list (nat * V)) : list (nat * V) :=
   match t with
-  | [] => [(k, f [])]
-  | (k', r) :: u => if okey_eqb k k' then (k', f r) :: u else (k', r) :: nc_put k f u
+  | [] => [(k, f None)]
+  | (k', v) :: u => if Nat.eqb k k' then (k', f (Some v)) :: u else (k', v) :: al_put k f u
   end.
+Fixpoint al_del {V : Type} (k : nat) (t : list (nat * V)) : list (nat * V) :=
+  match t with [] => [] | (k', v) :: u => if Nat.eqb k k' then u else (k', v) :: al_del k u end.
+Definition odflt {V : Type} (d : V) (o : option V) : V := match o with Some v => v | None => d end.
+
+Definition nreg := list (nat * list (nat * reg)).
+Definition nc_get (obj msg : nat) (t : nreg) : option reg :=
+  match al_get obj t with Some v => al_get msg v | None => None end.
 Definition nc_register (obj msg listener action : nat) (t : nreg) : nreg :=
-  nc_put (obj, msg) (reg_set listener action) t.
-(* unregister(obj, msg, listener): None = KeyError *)
+  al_put obj (fun ov => al_put msg (fun orr => reg_set listener action (odflt [] orr)) (odflt [] ov)) t.
+(* unregister(obj, msg, listener) / unregister(obj, msg) / unregister(obj): None = KeyError *)
 Definition nc_unregister (obj msg listener : nat) (t : nreg) : option nreg :=
-  match nc_get (obj, msg) t with
-  | Some r => if reg_mem listener r then Some (nc_put (obj, msg) (reg_del listener) t) else None
+  match al_get obj t with
   | None => None
+  | Some v =>
+    match al_get msg v with
+    | None => None
+    | Some r => if reg_mem listener r
+                then Some (al_put obj (fun _ => al_put msg (fun _ => reg_del listener r) v) t)
+                else None
+    end
   end.
+Definition nc_unregister_msg (obj msg : nat) (t : nreg) : option nreg :=
+  match al_get obj t with
+  | None => None
+  | Some v => match al_get msg v with
+              | None => None
+              | Some _ => Some (al_put obj (fun _ => al_del msg v) t)
+              end
+  end.
+Definition nc_unregister_obj (obj : nat) (t : nreg) : option nreg :=
+  match al_get obj t with None => None | Some _ => Some (al_del obj t) end.
 (* notify(obj, msg): every (listener, action) registered for (obj, msg), over a copy *)
-Definition nc_notify (obj msg : nat) (t : nreg) : list (nat * nat) :=
-  match nc_get (obj, msg) t with Some r => r | None => [] end.
+Definition nc_notify (obj msg : nat) (t : nreg) : list (nat * nat) := odflt [] (nc_get obj msg t).
 
 (* ---- histories (what the correspondence drives) ---------------------------------------------------------- *)
 Inductive rop :=
 | SaAdd (a args : nat) | SaRemove (a : nat) | SaRemoveAll | SaRun
 | SvAdd (s : skey) (a args : nat) | SvRemove (s : skey) (a : nat) | SvRemoveServer (s : skey)
 | SvRun (server : nat) (is_default : bool)
-| NcRegister (obj msg listener action : nat) | NcUnregister (obj msg listener : nat) | NcNotify (obj msg : nat).
+| NcRegister (obj msg listener action : nat) | NcUnregister (obj msg listener : nat) | NcNotify (obj msg : nat)
+| NcUnregisterMsg (obj msg : nat) | NcUnregisterObj (obj : nat).
 
 Record rstate := { st_sa : reg; st_sv : sreg; st_nc : nreg }.
 Definition rinit : rstate := {| st_sa := []; st_sv := []; st_nc := [] |}.
@@ -130,6 +153,16 @@ Definition rstep (removes : nat -> list nat) (st : rstate) (o : rop) : rstate * 
     | None => (st, [(0, 0)])
     end
   | NcNotify o m => (st, nc_notify o m (st_nc st))
+  | NcUnregisterMsg o m =>
+    match nc_unregister_msg o m (st_nc st) with
+    | Some t => ({| st_sa := st_sa st; st_sv := st_sv st; st_nc := t |}, [])
+    | None => (st, [(0, 0)])
+    end
+  | NcUnregisterObj o =>
+    match nc_unregister_obj o (st_nc st) with
+    | Some t => ({| st_sa := st_sa st; st_sv := st_sv st; st_nc := t |}, [])
+    | None => (st, [(0, 0)])
+    end
   end.
 
 Fixpoint rrun (removes : nat -> list nat) (st : rstate) (h : list rop) : list (list (nat * nat)) :=
